@@ -273,7 +273,35 @@ def loop_edges(ctx, n):
                 ctx.disagree(f"C05:loop-edge:{name}", desc, np.asarray(exp).tolist(), r[1:3] if r[0] != "ok" else np.asarray(r[1].array).tolist(), replay=[desc])
 
 
+def reevaluate(ctx, n):
+    """calculate(); add a further edge between nodes that are already in the diagram; calculate() again = the diagram built
+    in one go (no result may survive an extension of the diagram)"""
+    from geometer.base import Tensor, TensorDiagram
+    rng = ctx.rng
+    for k in range(n):
+        d = rng.choice([2, 3])
+        A = np.array([rng.randint(-3, 3) for _ in range(d * d)], dtype=float).reshape(d, d)
+        B = np.array([rng.randint(-3, 3) for _ in range(d * d)], dtype=float).reshape(d, d)
+        desc = f"re-evaluate A={A.tolist()} B={B.tolist()}"
+        ctx.case(desc, nontrivial=True)
+        ctx.count("reevaluate")
+        def run():
+            a, b = Tensor(A, covariant=[0, 1]), Tensor(B, covariant=False)
+            dg = TensorDiagram((a, b))
+            first = dg.calculate()
+            dg.add_edge(a, b)                          # both nodes are already there
+            second = dg.calculate()
+            a2, b2 = Tensor(A, covariant=[0, 1]), Tensor(B, covariant=False)
+            return first, second, TensorDiagram((a2, b2), (a2, b2)).calculate()
+        r = call_impl(run)
+        ok = r[0] == "ok" and r[1][1].tensor_shape == r[1][2].tensor_shape and np.allclose(r[1][1].array, r[1][2].array) \
+            and np.allclose(r[1][2].array, np.einsum("ij,ij->", A, B)) and r[1][0].tensor_shape == (1, 1)
+        if not ok:
+            ctx.disagree("C05:reevaluate", desc, float(np.einsum("ij,ij->", A, B)), r[1:3] if r[0] != "ok" else (r[1][1].tensor_shape, np.asarray(r[1][1].array).tolist()), replay=[desc])
+
+
 def correspondence(ctx):
+    reevaluate(ctx, ctx.budget(20, 200))
     loop_edges(ctx, ctx.budget(30, 300))
     # minimised past failures first
     import glob, json, os
